@@ -245,6 +245,24 @@ def main():
     a += 'def Sg.sgdic : List (String × String) := [\n  '
     a += ',\n  '.join('(%s, %s)' % (lean_str(k), lean_str(v)) for k, v in sgmod.sgdic.items()) + ']\n'
     changed += write_if_changed(os.path.join(OUT, 'Sg', 'All.lean'), a)
+    # names as code points (kernel-friendly: no String operations in the decided statements)
+    nm = '/- GENERATED by harness/gen_tables.py from xfab/sg.py (sgdic) and xfab/sglib.py (names) — do not edit. -/\n\n'
+    ents = []
+    for k, v in sgmod.sgdic.items():
+        if not (isinstance(v, str) and v.startswith('Sg') and v[2:].isdigit()):
+            raise Refuse('sgdic value %r is not a class name Sg<number>' % (v,))
+        if not k.isascii():
+            raise Refuse('sgdic key %r is not ASCII' % (k,))
+        ents.append('(%s, %d)' % ([ord(c) for c in k], int(v[2:])))
+    nm += '/-- `sgdic`: key (code points) ↦ number N of the class `SgN` -/\ndef Sg.dicL : List (List Nat × Nat) := [\n  ' + ',\n  '.join(ents) + ']\n\n'
+    sets = []
+    for key, o in settings:
+        if not o.name.isascii():
+            raise Refuse('table name %r is not ASCII' % (o.name,))
+        sets.append('(%d, %s, %s)' % (o.no, 'true' if o.cell_choice == 'rhombohedral' else 'false', [ord(c) for c in o.name]))
+    nm += '/-- parallel to `Sg.allTables`: (number, rhombohedral setting?, name as code points) -/\n'
+    nm += 'def Sg.settingsL : List (Nat × Bool × List Nat) := [\n  ' + ',\n  '.join(sets) + ']\n'
+    changed += write_if_changed(os.path.join(OUT, 'Sg', 'Names.lean'), nm)
     ca = '/- GENERATED by harness/gen_tables.py — do not edit. -/\n'
     ca += ''.join('import XfabVerif.Gen.Sg.Check%d\n' % k for k in range(NCHUNK))
     changed += write_if_changed(os.path.join(OUT, 'Sg', 'CheckAll.lean'), ca)
